@@ -494,10 +494,10 @@ func (r *rig) collect(ob *obs) e2e.Outcome {
 	ob.hitConn = make([][]net.Conn, len(r.targets))
 	for i, t := range r.targets {
 		// the sentinel's own socket is bound to a name, so the target can tell it from the server's connections
-		local := sock("q")
+		// (an abstract name, unique on the machine: no file to create and unlink for every barrier)
+		local := fmt.Sprintf("@c03-sentinel-%d-%d", os.Getpid(), atomic.AddInt64(&seq, 1))
 		s, err := net.DialUnix("unix", &net.UnixAddr{Name: local, Net: "unix"}, &net.UnixAddr{Name: t.Addr, Net: "unix"})
 		if err != nil {
-			os.Remove(local)
 			ob.Note = "sentinel dial failed: " + err.Error()
 			return e2e.Inconclusive
 		}
@@ -505,7 +505,6 @@ func (r *rig) collect(ob *obs) e2e.Outcome {
 			c, o := t.Next()
 			if o != e2e.Done {
 				s.Close()
-				os.Remove(local)
 				return o
 			}
 			if ra := c.RemoteAddr(); ra != nil && ra.String() == local {
@@ -516,7 +515,6 @@ func (r *rig) collect(ob *obs) e2e.Outcome {
 			ob.hitConn[i] = append(ob.hitConn[i], c)
 			ob.Hits[i]++
 		}
-		os.Remove(local)
 	}
 	return e2e.Done
 }
